@@ -505,6 +505,15 @@ fn oracle(kind: &str, msg: String) -> ! {
     panic!("ORACLE[{kind}] {msg}");
 }
 
+/// Witness classes that are recorded instead of ending the exploration of the program: the
+/// diagnosed non-atomicity of manual set(). Ending at the first such execution would hide any
+/// OTHER violation in the remaining schedules of the same program.
+static NOTED: StdMutex<BTreeMap<String, String>> = StdMutex::new(BTreeMap::new());
+
+fn note(kind: &str, msg: String) {
+    NOTED.lock().unwrap_or_else(|p| p.into_inner()).entry(kind.to_string()).or_insert(msg);
+}
+
 struct Waiter {
     id: usize,
     fut: Option<Fut>,
@@ -661,12 +670,12 @@ fn execute(prog: &Program) -> String {
     let summary = format!("pre={pre_hist:?} threads={thread_hists:?} post={post:?}");
     if !linearizable(prog.manual, 0, nwaiters, &pre_hist, &thread_hists, &post) {
         if prog.manual && linearizable(true, 2, nwaiters, &pre_hist, &thread_hists, &post) {
-            oracle("manual-set-not-atomic", format!("history is not linearizable, but is explained by set() = [raise flag] ... [release registered waiters] as two separate steps: {summary}"));
+            note("manual-set-not-atomic", format!("history is not linearizable, but is explained by set() = [raise flag] ... [release registered waiters] as two separate steps: {summary}"));
+        } else if prog.manual && linearizable(true, 3, nwaiters, &pre_hist, &thread_hists, &post) {
+            note("manual-set-not-atomic:late-registrant-skipped", format!("history is not linearizable, not even with set() split in two, but is explained by set() = [raise flag] ... [advance_generation: choose the waiters registered so far] ... [release the chosen waiters] as three separate steps (a waiter that registers between the last two is skipped although it registered before set() returned and before an earlier-registered waiter was released): {summary}"));
+        } else {
+            oracle("nonlinearizable", format!("no sequential order of the calls explains: {summary}"));
         }
-        if prog.manual && linearizable(true, 3, nwaiters, &pre_hist, &thread_hists, &post) {
-            oracle("manual-set-not-atomic:late-registrant-skipped", format!("history is not linearizable, not even with set() split in two, but is explained by set() = [raise flag] ... [advance_generation: choose the waiters registered so far] ... [release the chosen waiters] as three separate steps (a waiter that registers between the last two is skipped although it registered before set() returned and before an earlier-registered waiter was released): {summary}"));
-        }
-        oracle("nonlinearizable", format!("no sequential order of the calls explains: {summary}"));
     }
     // Wake obligation: a waiter whose latest poll returned Pending(w) and which the probe found
     // released must have had w invoked. For the auto event a Ready probe means released (a stored
@@ -717,13 +726,16 @@ fn child(job: &str) {
     let mut results = Vec::new();
     for name in job.split(';').filter(|s| !s.is_empty()) {
         let prog = Program::parse(name);
-        match run_program_under_loom(&prog) {
+        NOTED.lock().unwrap_or_else(|p| p.into_inner()).clear();
+        let r = run_program_under_loom(&prog);
+        let noted: BTreeMap<String, String> = std::mem::take(&mut *NOTED.lock().unwrap_or_else(|p| p.into_inner()));
+        match r {
             Ok((n, outs)) => {
                 let sample = outs.iter().next().cloned().unwrap_or_default();
-                results.push(json!({"prog": name, "iters": n, "outcomes": outs.len(), "sample": sample}))
+                results.push(json!({"prog": name, "iters": n, "outcomes": outs.len(), "sample": sample, "noted": noted}))
             }
             Err(msg) => {
-                results.push(json!({"prog": name, "violation": msg}));
+                results.push(json!({"prog": name, "violation": msg, "noted": noted}));
                 break;
             }
         }
@@ -891,6 +903,11 @@ fn main() {
     for (name, d) in &per_prog {
         let prog = Program::parse(name);
         c.evaluations += 1;
+        // Recorded (not exploration-ending) witness classes of this program.
+        for (kind, msg) in d.get("noted").and_then(Value::as_object).into_iter().flatten() {
+            let msg = msg.as_str().unwrap_or("");
+            c.violation(kind, &format!("{name}: {msg}"), json!({"program": name, "bound": bound, "message": msg}));
+        }
         if let Some(msg) = d.get("violation").and_then(Value::as_str) {
             let kind = classify(msg);
             // The known non-atomicity of manual set() is one witness class regardless of the
